@@ -40,6 +40,17 @@ class _ScalarMeta(type):
     def __subclasscheck__(cls, sub):
         return type.__subclasscheck__(cls, sub) or issubclass(sub, cls.__mro__[1])
 
+    def __call__(cls, *a, **k):
+        base = cls.__mro__[1]
+        if a and _is_shim(a[0]) and a[0].sym:
+            return a[0].astype(rnp.dtype(base))          # cast of a symbolic scalar / array (numba: self_precision(x))
+        return base(*_real_arg(a), **k)
+
+
+def fake_scalar_type(t):
+    """real numpy scalar type -> the shim's stand-in (callable on symbolic values)."""
+    return getattr(_this, t.__name__, t) if isinstance(t, type) and issubclass(t, rnp.generic) and not isinstance(t, _ScalarMeta) else t
+
 
 def _mk_scalar_type(name):
     base = getattr(rnp, name)
@@ -587,7 +598,7 @@ def _tree_carrier(obj):
         for i, (c, d) in enumerate(subs):
             if c.shape != shp:
                 raise ValueError('setting an array element with a sequence. The requested array has an inhomogeneous shape')
-            out[i] = c
+            out[i] = c if c.ndim else c[()]
             dts += d
         return out, dts
     return _obj0(obj), [rnp.asarray(obj).dtype if not isinstance(obj, z3.ExprRef) else rnp.dtype(object)]
@@ -1737,14 +1748,24 @@ def terms(a):
 # shim versions of builtins that scared applies to array scalars ------------------------------------
 
 
-def shim_int(x=0, *a):
-    if _is_shim(x) and x.sym:
-        e0 = x._single()
-        if z3.is_arith(e0) and e0.is_real():
-            return ndarray_impl(_obj0(E.trunc_int(e0)), rnp.dtype('int64'))
-        if z3.is_bv(e0) or z3.is_arith(e0):
-            return x if not CTX.numba else x.astype('int64')
-    return int(x, *a)
+class _IntMeta(type):
+    def __instancecheck__(cls, x):
+        return isinstance(x, int)
+
+    def __subclasscheck__(cls, sub):
+        return issubclass(sub, int)
+
+
+class shim_int(int, metaclass=_IntMeta):
+    """Stand-in for the builtin int inside interpreted kernels: int(x) of a symbolic scalar truncates toward zero (numba / C semantics)."""
+
+    def __new__(cls, x=0, *a):
+        if _is_shim(x) and x.sym:
+            e0 = x._single()
+            if z3.is_arith(e0) and e0.is_real() and x.dtype.kind == 'f':
+                return ndarray_impl(_obj0(E.trunc_int(e0)), rnp.dtype('int64'))
+            return x.astype('int64')
+        return int(x, *a)
 
 
 # submodules ---------------------------------------------------------------------------------
